@@ -109,6 +109,11 @@ func spvReqID(name string) (string, bool) { // value, present
 		return spvID1[:len(spvID1)-3], true
 	case "sfx":
 		return spvID1 + "77", true
+	case "case":
+		if u := strings.ToUpper(spvID1); u != spvID1 {
+			return u, true
+		}
+		return strings.ToLower(spvID1), true
 	case "empty", "":
 		return "", true
 	case "absent":
